@@ -538,7 +538,7 @@ class Acelyzer:
         if any(args.counter) and "prep_queue" in args.counter:
             process.register_stage(
                 callback=event_pipe.queueing_counter,
-                context=event_pipe.QueueingCounterContext(),
+                context=event_pipe.QueueingCounterContext(sorted_input=not args.skip_mpsync),
                 keep_prep=args.keep_prep)
 
         # optionally dropping events without TSx or are Prep events
